@@ -73,7 +73,7 @@ func runUptracePrep(args []string) int {
 		bs      bool
 		lines   []map[string]any
 	}
-	cur := map[string]*sess{} // per target
+	cur := map[string]*sess{}     // per target
 	inGate := map[string]string{} // goroutine -> method currently holding a ReadWrite lock
 	nsid := 0
 	nlocks, nsess := 0, 0
